@@ -187,7 +187,9 @@ def update (self : Cache) (node : Ast) (right : Option Cache := none) : Cache :=
         | none => self
         | some r =>
           { self with
-            cols := self.cols.filter (fun e => self.uuidToName.any (·.1 == e.1))
+            -- the union is a new relation: its columns are ordinary columns (repair of D73)
+            cols := (self.cols.filter (fun e => self.uuidToName.any (·.1 == e.1))).map
+              (fun e => (e.1, { e.2 with dtype := e.2.dtype.withoutConst, ftype := .elementWise }))
             derivedFrom := setUnion self.derivedFrom r.derivedFrom
             limit := none, groupBy := [] }
     | .subqueryMarker .. =>
